@@ -64,6 +64,10 @@ var pureStdlib = map[string]string{
 func (x *Exec) stdlibCall(st *State, fr *Frame, v *ssa.Call, f *ssa.Function, args []Val, site string) {
 	k := funcKey(f)
 	rt := v.Type()
+	// the library may allocate: results may be fresh references
+	na := Fresh("A", SInt)
+	st.assumeDef(Gt(na, st.alloc))
+	st.alloc = na
 	setRes := func(val Val) { fr.regs[v] = val }
 	freshRes := func() Val {
 		if rt == nil || isEmptyTuple(rt) {
@@ -157,6 +161,29 @@ func (x *Exec) stdlibCall(st *State, fr *Frame, v *ssa.Call, f *ssa.Function, ar
 		pre("reflect.Value.Interface.exported", UF("rvalue.caninterface", SBool, val), val)
 		freshRes()
 		return
+	case "reflect.TypeOf", "reflect.ValueOf__kinds":
+		use("nil iff the argument is the nil interface; Kind is a function of the dynamic type")
+		r := freshRes().(*IfaceV)
+		i := args[0].(*IfaceV)
+		st.assumeDef(Eq(Eq(r.Tag, IntC(0)), Eq(i.Tag, IntC(0))))
+		st.assumeDef(Eq(UF("rtype.kind", SInt, r.Ref), UF("kindOfTag", SInt, i.Tag)))
+		st.assumeDef(Eq(UF("rtype.tag", SInt, r.Ref), i.Tag))
+		x.kindFacts(st)
+		return
+	case "reflect.Value.Kind":
+		use("pure")
+		setRes(UF("rvalue.kind", SInt, x.scalar(args[0])))
+		return
+	case "reflect.Value.Len":
+		use("requires a slice/map/string/array/chan kind; result >= 0")
+		n := UF("rvalue.len", SInt, x.scalar(args[0]))
+		st.assumeDef(Ge(n, IntC(0)))
+		setRes(n)
+		return
+	case "reflect.Value.String":
+		use("pure")
+		setRes(UF("rvalue.string", SStr, x.scalar(args[0])))
+		return
 	case "reflect.ValueOf":
 		use("valid iff the argument is a non-nil interface")
 		r := freshRes()
@@ -165,6 +192,8 @@ func (x *Exec) stdlibCall(st *State, fr *Frame, v *ssa.Call, f *ssa.Function, ar
 		st.assumeDef(Eq(UF("rvalue.valid", SBool, rv), Ne(i.Tag, IntC(0))))
 		st.assumeDef(UF("rvalue.caninterface", SBool, rv))
 		st.assumeDef(Eq(UF("rvalue.tag", SInt, rv), i.Tag))
+		st.assumeDef(Eq(UF("rvalue.kind", SInt, rv), UF("kindOfTag", SInt, i.Tag)))
+		x.kindFacts(st)
 		return
 	case "reflect.Value.Elem":
 		use("requires Kind is Pointer or Interface; result valid iff the pointer is non-nil")
@@ -181,7 +210,11 @@ func (x *Exec) stdlibCall(st *State, fr *Frame, v *ssa.Call, f *ssa.Function, ar
 		st.assumeDef(Eq(UF("rvalue.caninterface", SBool, x.scalar(r)), UF("rfield.exported", SBool, UF("rvalue.tag", SInt, x.scalar(args[0])), i)))
 		return
 	case "reflect.Value.Index", "reflect.Value.MapIndex":
-		use("result valid (index in range / key present), CanInterface")
+		use("Index requires 0 <= i < Len(); result valid (index in range / key present), CanInterface")
+		if k == "reflect.Value.Index" {
+			i := x.scalar(args[1])
+			pre("reflect.Value.Index.range", And(Ge(i, IntC(0)), Lt(i, UF("rvalue.len", SInt, x.scalar(args[0])))), i)
+		}
 		r := freshRes()
 		st.assumeDef(UF("rvalue.valid", SBool, x.scalar(r)))
 		st.assumeDef(UF("rvalue.caninterface", SBool, x.scalar(r)))
@@ -192,8 +225,8 @@ func (x *Exec) stdlibCall(st *State, fr *Frame, v *ssa.Call, f *ssa.Function, ar
 		st.assumeDef(Ge(r.Base, st.alloc0))
 		return
 	case "reflect.StructField.IsExported":
-		use("pure")
-		freshRes()
+		use("pure: exported-ness of that field")
+		setRes(UF("sfield.exported", SBool, x.scalar(args[0])))
 		return
 	case "os.ReadFile":
 		use("fresh []byte or error")
@@ -280,4 +313,67 @@ func paramType(f *ssa.Function, i int) types.Type {
 		return sig.Params().At(sig.Params().Len() - 1).Type()
 	}
 	return types.Typ[types.Int]
+}
+
+// kindFacts: reflect.Kind of every type that can be boxed into an interface (go/types).
+func (x *Exec) kindFacts(st *State) {
+	for _, t := range x.ld.tagTypes {
+		k := reflectKind(t)
+		if k >= 0 {
+			st.assumeDef(Eq(UF("kindOfTag", SInt, IntC(int64(x.ld.typeID(t)))), IntC(int64(k))))
+		}
+	}
+}
+
+func reflectKind(t types.Type) int {
+	switch u := t.Underlying().(type) {
+	case *types.Basic:
+		switch u.Kind() {
+		case types.Bool:
+			return 1
+		case types.Int:
+			return 2
+		case types.Int8:
+			return 3
+		case types.Int16:
+			return 4
+		case types.Int32:
+			return 5
+		case types.Int64:
+			return 6
+		case types.Uint:
+			return 7
+		case types.Uint8:
+			return 8
+		case types.Uint16:
+			return 9
+		case types.Uint32:
+			return 10
+		case types.Uint64:
+			return 11
+		case types.Float32:
+			return 13
+		case types.Float64:
+			return 14
+		case types.String:
+			return 24
+		}
+	case *types.Array:
+		return 17
+	case *types.Chan:
+		return 18
+	case *types.Signature:
+		return 19
+	case *types.Interface:
+		return 20
+	case *types.Map:
+		return 21
+	case *types.Pointer:
+		return 22
+	case *types.Slice:
+		return 23
+	case *types.Struct:
+		return 25
+	}
+	return -1
 }
